@@ -34,98 +34,111 @@ func checkC20(p *Prog, r *Report) {
 			r.Undecided("R1", "anchor:"+m, "", "implementation not found")
 			continue
 		}
-		for _, fn := range impls {
-			base := FnName(fn)
-			var copyCall, setCall, helperCall *ssa.Call
-			forEachCall(fn, func(site ssa.CallInstruction) {
-				c, ok := site.(*ssa.Call)
-				if !ok {
-					return
+		for _, fn0 := range impls {
+			fn := fn0
+			m := m
+			p.InScope(fn, func() {
+				base := FnName(fn)
+				var copyCall, setCall, helperCall *ssa.Call
+				for _, an := range fn.AnonFuncs {
+					forEachCallOwn(an, func(site ssa.CallInstruction) {
+						if c, ok := site.(*ssa.Call); ok {
+							if callee := c.Call.StaticCallee(); callee != nil && callee.Signature.Recv() != nil && isNamed(callee.Signature.Recv().Type(), "model", "NodeManagementUseCaseDataType") {
+								helperCall = c
+							}
+						}
+					})
 				}
-				if calleeIsIfaceMethod(&c.Call, fli, "SetData") {
-					setCall = c
-				}
-				if callee := c.Call.StaticCallee(); callee != nil {
-					if reachesIfaceCall(p, callee, fli, "DataCopy", 0, map[*ssa.Function]bool{}) {
+				forEachCall(fn, func(site ssa.CallInstruction) {
+					c, ok := site.(*ssa.Call)
+					if !ok {
+						return
+					}
+					if calleeIsIfaceMethod(&c.Call, fli, "SetData") {
+						setCall = c
+					}
+					if callee := c.Call.StaticCallee(); callee != nil {
+						if reachesIfaceCall(p, callee, fli, "DataCopy", 0, map[*ssa.Function]bool{}) {
+							copyCall = c
+						}
+						if callee.Signature.Recv() != nil && isNamed(callee.Signature.Recv().Type(), "model", "NodeManagementUseCaseDataType") {
+							helperCall = c
+						}
+					}
+					if calleeIsIfaceMethod(&c.Call, fli, "DataCopy") {
 						copyCall = c
 					}
-					if callee.Signature.Recv() != nil && isNamed(callee.Signature.Recv().Type(), "model", "NodeManagementUseCaseDataType") {
-						helperCall = c
+				})
+				if copyCall == nil || helperCall == nil {
+					r.Fail("R5", base+"|shape", p.Pos(fn.Pos()), fmt.Sprintf("copy call found=%v, data-model helper call found=%v", copyCall != nil, helperCall != nil))
+					return
+				}
+				// R5: helper and key
+				helper := originName(helperCall.Call.StaticCallee())
+				okHelper := helper == mutators[m]
+				// the helper works on the copy
+				okOn := strings.Contains(Path(helperCall.Call.Args[0]), "DataCopy") || valueDerivesFrom(helperCall.Call.Args[0], copyCall) || valueDerivesFrom(substParam(helperCall.Call.Args[0]), copyCall)
+				// key literal
+				keyOK, keyDesc := false, ""
+				if len(helperCall.Call.Args) > 1 {
+					keyOK, keyDesc = addressKeyOK(helperCall.Call.Args[1])
+				}
+				// function constant of the copy and the store
+				fct := ""
+				for _, a := range copyCall.Call.Args {
+					if s, ok := constString(a); ok {
+						fct = s
 					}
 				}
-				if calleeIsIfaceMethod(&c.Call, fli, "DataCopy") {
-					copyCall = c
+				r.Check("R5", base+"|helper", okHelper && okOn, p.InstrPos(helperCall), fmt.Sprintf("delegates to %s on the copied data", helper))
+				r.Check("R5", base+"|key", keyOK, p.InstrPos(helperCall), "address key "+keyDesc)
+				r.Check("R5", base+"|function", fct == "nodeManagementUseCaseData", p.InstrPos(copyCall), "copies function "+fct)
+				if m == "HasUseCaseSupport" {
+					r.Check("R1", base+"|read-only", setCall == nil, p.Pos(fn.Pos()), "the query does not store")
+					return
 				}
+				nMut++
+				if setCall == nil {
+					r.Fail("R1", base+"|rmw", p.Pos(fn.Pos()), "no SetData call storing the modified copy")
+					return
+				}
+				// the stored value is the copy, stored under the same function
+				args := callArgs(&setCall.Call)
+				sfct, _ := constString(args[0])
+				okStore := sfct == "nodeManagementUseCaseData" && (valueDerivesFrom(args[1], copyCall) || strings.Contains(Path(args[1]), "DataCopy"))
+				r.Check("R1", base+"|stores-copy", okStore, p.InstrPos(setCall), fmt.Sprintf("SetData(%s, %s)", sfct, Path(args[1])))
+				secs := ls.CommonSections(copyCall, setCall)
+				// a read lock does not exclude another read-modify-write cycle holding the same read lock
+				var wsecs []string
+				for _, sname := range secs {
+					if h, ok := ls.At(copyCall)[sname]; ok && !h.Read {
+						if h2, ok := ls.At(setCall)[sname]; ok && !h2.Read {
+							wsecs = append(wsecs, sname)
+						}
+					}
+				}
+				if len(wsecs) < len(secs) {
+					r.Fail("R1", base+"|write-mode", p.InstrPos(setCall), fmt.Sprintf("the cycle holds %v only in read mode: two cycles can overlap and one update is lost", secs))
+				}
+				secs = wsecs
+				r.Check("R1", base+"|rmw", len(secs) > 0 && instrDominates(copyCall, setCall), p.InstrPos(setCall), fmt.Sprintf("copy at %s and store at %s share the critical sections %v", p.InstrPos(copyCall), p.InstrPos(setCall), secs))
+				for _, s := range secs {
+					commonLocks[s]++
+				}
+				// the lock must be as wide as the data: the use-case data belongs to the device's node management
+				// (shared by all entities), so a lock that is a field of the entity does not exclude the other entities
+				owner := Path(setCall.Call.Value)
+				wide := false
+				for _, s := range secs {
+					if strings.HasPrefix(s, "global:") {
+						wide = true
+					}
+					if i := strings.LastIndex(s, "."); i > 0 && strings.HasPrefix(owner, s[:i]) && s[:i] != "recv" {
+						wide = true // a lock of the object that owns the data (or of an object it is reached through)
+					}
+				}
+				r.Check("R1", base+"|lock-scope", wide, p.InstrPos(setCall), fmt.Sprintf("the cycle works on data of %s under the locks %v: the lock must be shared by every entity of the device (package level, or owned by the device / its node management), not per entity", owner, secs))
 			})
-			if copyCall == nil || helperCall == nil {
-				r.Fail("R5", base+"|shape", p.Pos(fn.Pos()), fmt.Sprintf("copy call found=%v, data-model helper call found=%v", copyCall != nil, helperCall != nil))
-				continue
-			}
-			// R5: helper and key
-			helper := originName(helperCall.Call.StaticCallee())
-			okHelper := helper == mutators[m]
-			// the helper works on the copy
-			okOn := strings.Contains(Path(helperCall.Call.Args[0]), "DataCopy") || valueDerivesFrom(helperCall.Call.Args[0], copyCall)
-			// key literal
-			keyOK, keyDesc := false, ""
-			if len(helperCall.Call.Args) > 1 {
-				keyOK, keyDesc = addressKeyOK(helperCall.Call.Args[1])
-			}
-			// function constant of the copy and the store
-			fct := ""
-			for _, a := range copyCall.Call.Args {
-				if s, ok := constString(a); ok {
-					fct = s
-				}
-			}
-			r.Check("R5", base+"|helper", okHelper && okOn, p.InstrPos(helperCall), fmt.Sprintf("delegates to %s on the copied data", helper))
-			r.Check("R5", base+"|key", keyOK, p.InstrPos(helperCall), "address key "+keyDesc)
-			r.Check("R5", base+"|function", fct == "nodeManagementUseCaseData", p.InstrPos(copyCall), "copies function "+fct)
-			if m == "HasUseCaseSupport" {
-				r.Check("R1", base+"|read-only", setCall == nil, p.Pos(fn.Pos()), "the query does not store")
-				continue
-			}
-			nMut++
-			if setCall == nil {
-				r.Fail("R1", base+"|rmw", p.Pos(fn.Pos()), "no SetData call storing the modified copy")
-				continue
-			}
-			// the stored value is the copy, stored under the same function
-			args := callArgs(&setCall.Call)
-			sfct, _ := constString(args[0])
-			okStore := sfct == "nodeManagementUseCaseData" && (valueDerivesFrom(args[1], copyCall) || strings.Contains(Path(args[1]), "DataCopy"))
-			r.Check("R1", base+"|stores-copy", okStore, p.InstrPos(setCall), fmt.Sprintf("SetData(%s, %s)", sfct, Path(args[1])))
-			secs := ls.CommonSections(copyCall, setCall)
-			// a read lock does not exclude another read-modify-write cycle holding the same read lock
-			var wsecs []string
-			for _, sname := range secs {
-				if h, ok := ls.At(copyCall)[sname]; ok && !h.Read {
-					if h2, ok := ls.At(setCall)[sname]; ok && !h2.Read {
-						wsecs = append(wsecs, sname)
-					}
-				}
-			}
-			if len(wsecs) < len(secs) {
-				r.Fail("R1", base+"|write-mode", p.InstrPos(setCall), fmt.Sprintf("the cycle holds %v only in read mode: two cycles can overlap and one update is lost", secs))
-			}
-			secs = wsecs
-			r.Check("R1", base+"|rmw", len(secs) > 0 && instrDominates(copyCall, setCall), p.InstrPos(setCall), fmt.Sprintf("copy at %s and store at %s share the critical sections %v", p.InstrPos(copyCall), p.InstrPos(setCall), secs))
-			for _, s := range secs {
-				commonLocks[s]++
-			}
-			// the lock must be as wide as the data: the use-case data belongs to the device's node management
-			// (shared by all entities), so a lock that is a field of the entity does not exclude the other entities
-			owner := Path(setCall.Call.Value)
-			wide := false
-			for _, s := range secs {
-				if strings.HasPrefix(s, "global:") {
-					wide = true
-				}
-				if i := strings.LastIndex(s, "."); i > 0 && strings.HasPrefix(owner, s[:i]) && s[:i] != "recv" {
-					wide = true // a lock of the object that owns the data (or of an object it is reached through)
-				}
-			}
-			r.Check("R1", base+"|lock-scope", wide, p.InstrPos(setCall), fmt.Sprintf("the cycle works on data of %s under the locks %v: the lock must be shared by every entity of the device (package level, or owned by the device / its node management), not per entity", owner, secs))
 		}
 	}
 	same := false
@@ -238,6 +251,18 @@ func valueDerivesFrom(v ssa.Value, src ssa.Value) bool {
 // addressKeyOK: the key is a FeatureAddressType whose Device and Entity come
 // from the receiver's own address.
 func addressKeyOK(v ssa.Value) (bool, string) {
+	v = substParam(v)
+	// built by an extracted helper of the entity (r.useCaseAddress()): what the helper returns, on the same receiver
+	if c, isCall := v.(*ssa.Call); isCall {
+		if h := c.Call.StaticCallee(); h != nil && curProg != nil && curProg.helperCandidate(h) && h.Signature.Recv() != nil && len(c.Call.Args) == 1 && Path(c.Call.Args[0]) == "recv" {
+			for _, b := range h.Blocks {
+				if ret, isRet := b.Instrs[len(b.Instrs)-1].(*ssa.Return); isRet && len(ret.Results) == 1 {
+					return addressKeyOK(ret.Results[0])
+				}
+			}
+		}
+		return false, Path(v)
+	}
 	u, ok := v.(*ssa.UnOp)
 	if !ok {
 		return false, Path(v)
@@ -372,7 +397,7 @@ func sliceEqualityLint(p *Prog, r *Report, rule string) {
 		}
 		r.Check(rule, fmt.Sprintf("%s|address-comparison#%d", p.StableName(idx), nCmp), okPrim, p.InstrPos(c), "addresses compared by "+name)
 	})
-	r.Floor(rule, "address comparisons in the use-case look-up", nCmp, 2)
+	r.Floor(rule, "address comparisons in the use-case look-up", nCmp, 1)
 }
 
 // writeBackIndexRule: copy-modify-write-back of one list element. When an
